@@ -339,6 +339,48 @@ fn c5_real_types_shift() {
     conflict_case_real(true, false, 0, 10, 10, [10, 10], 0, 0, 0, 0, MF);
 }
 
+/// C05 "shift priority = max priority of productions shifting the terminal in this state": the real
+/// LRState::group_per_next_symbol on a state with two items that both have terminal 1 right of the dot, from productions
+/// of symbolic priorities (every pair of u32 values, either order).  bounded: two items, one terminal.
+#[kani::proof]
+#[kani::unwind(6)]
+fn max_prior_for_term_is_max() {
+    let p1: u32 = kani::any();
+    let p2: u32 = kani::any();
+    let mk = |prio: u32, idx: usize| Production {
+        idx: ProdIndex(idx),
+        nonterminal: NonTermIndex(0),
+        rhs: vec![mk_assignment(1)],
+        prio,
+        ..Production::default()
+    };
+    let prods = vec![mk(10, 0), mk(p1, 1), mk(p2, 2)];
+    let terms = vec![
+        Terminal { idx: TermIndex(0), ..Default::default() },
+        Terminal { idx: TermIndex(1), ..Default::default() },
+    ];
+    let grammar_owned = mk_grammar(prods, terms);
+    let grammar = &grammar_owned;
+    let mut state = LRState::new(grammar, StateIndex(0), SymbolIndex(0));
+    state.items.push(LRItem { prod: ProdIndex(1), prod_len: 1, rn_len: None, position: 0, follow: RefCell::new(Follow::new()) });
+    state.items.push(LRItem { prod: ProdIndex(2), prod_len: 1, rn_len: None, position: 0, follow: RefCell::new(Follow::new()) });
+    let groups = state.group_per_next_symbol();
+    let want = if p1 >= p2 { p1 } else { p2 };
+    assert!(state.max_prior_for_term.len() == 1);
+    assert!(state.max_prior_for_term.get(&TermIndex(1)) == Some(&want));
+    // both items are grouped under the symbol right of the dot, in item order
+    let g = groups.get(&SymbolIndex(1));
+    assert!(groups.len() == 1);
+    assert!(matches!(g, Some(v) if v.len() == 2 && v[0] == ItemIndex(0) && v[1] == ItemIndex(1)));
+    kani::cover!(p1 > p2);
+    kani::cover!(p1 < p2);
+    kani::cover!(p1 == p2);
+    kani::cover!(true);
+    std::mem::forget(groups);
+    std::mem::forget(state);
+    std::mem::forget(grammar_owned);
+}
+
 /// C01: LRItem predicates.  complete (loop-free, all usize values).
 #[kani::proof]
 fn lr_item_predicates() {
